@@ -235,6 +235,9 @@ def run(repo, rep, tier):
         "assignment); (R8.5) Count refuses a non-identity transform before computing. Decides the shape of scaling, not "
         "numeric identities under rounding."
     )
+    rep.extra["explanation"] += " " + (
+        'Later additions: structural parameters of h*f come from h (per return statement); (R8.6) a slot mirrored by __init__ into per-element attributes is only set by __init__; (R8.7) shared rule of C06: children of h*f are fresh.'
+    )
     rep.not_decided += ["numeric identities ((h*a)*b == h*(a*b), h*2 == h+h) under rounding", "distribution over + on values"]
     prims, _ = primitives(repo)
     models = build_models(repo)
